@@ -96,6 +96,9 @@ var c09HeaderPairs = []c09HeaderPair{
 	{Name: "accept-order", Vary: []string{"Accept"}, A: map[string][]string{"Accept": {"text/html, application/json"}}, B: map[string][]string{"Accept": {"application/json,text/html"}}},
 	{Name: "ua-case", Vary: []string{"User-Agent"}, A: map[string][]string{"User-Agent": {"Foo/1.0"}}, B: map[string][]string{"User-Agent": {"foo/1.0"}}},
 	{Name: "two-lines-vs-one", Vary: []string{"Accept-Encoding"}, A: map[string][]string{"Accept-Encoding": {"gzip", "br"}}, B: map[string][]string{"Accept-Encoding": {"gzip, br"}}},
+	{Name: "xa-two-lines-identical", Vary: []string{"X-A"}, A: map[string][]string{"X-A": {"1", "2"}}, B: map[string][]string{"X-A": {"1", "2"}}},
+	{Name: "ua-two-lines-identical", Vary: []string{"User-Agent"}, A: map[string][]string{"User-Agent": {"a/1", "b/2"}}, B: map[string][]string{"User-Agent": {"a/1", "b/2"}}},
+	{Name: "cookie-two-lines", Vary: []string{"Cookie"}, A: map[string][]string{"Cookie": {"a=1", "b=2"}}, B: map[string][]string{"Cookie": {"a=1", "b=2"}}},
 	{Name: "name-like-values", Vary: []string{"X-A, X-B"}, A: map[string][]string{"X-A": {"1X-B"}, "X-B": {"2"}}, B: map[string][]string{"X-A": {"1X-B"}, "X-B": {"2"}}},
 }
 
@@ -218,6 +221,15 @@ func genC09(r *rand.Rand) c09Case {
 	if chance(r, 0.6) {
 		up = c09RandomPair(r)
 	}
+	if chance(r, 0.25) {
+		// key lengths around the file-name limits of the fs backend (base64 of 190-193 bytes is 254-258 characters)
+		n := pick(r, []int{35, 36, 37, 47, 48, 49, 180 + r.IntN(25), 180 + r.IntN(25), 186, 187, 188, 189, 190, 191, 192, 193, 194, 250 + r.IntN(12), 380 + r.IntN(8)})
+		u := "http://a.example/"
+		for len(u) < n {
+			u += string(rune('a' + len(u)%26))
+		}
+		up = [2]string{u, u}
+	}
 	if chance(r, 0.5) {
 		up[0], up[1] = up[1], up[0]
 	}
@@ -225,7 +237,11 @@ func genC09(r *rand.Rand) c09Case {
 	if chance(r, 0.5) {
 		hp.A, hp.B = hp.B, hp.A
 	}
-	c := c09Case{Fresh: f.Name, Status: pick(r, c09Statuses), Backend: pick(r, c09Backends), URLa: up[0], URLb: up[1], Hdr: hp.Name,
+	backend := pick(r, c09Backends)
+	if up[0] == up[1] && len(up[0]) > 30 && strings.HasSuffix(up[0], up[0][len(up[0])-1:]) && chance(r, 0.5) {
+		backend = pick(r, []string{"fs", "fsaes", "fs-reopen"})
+	}
+	c := c09Case{Fresh: f.Name, Status: pick(r, c09Statuses), Backend: backend, URLa: up[0], URLb: up[1], Hdr: hp.Name,
 		ReqCC: pick(r, c09ReqCC), Noise: r.IntN(4), BodySize: pick(r, []int{0, 10, 100, 5000}), fresh: f, hdr: hp}
 	// elapsed: fresh by >= 2 s (min-fresh=1 needs one more)
 	lim := f.Lifetime - 3
